@@ -60,7 +60,7 @@ def floors(tier):
          "compression:2site": 12, "leaf:harness": 700, "leaf:random": 200, "leaf:product": 200, "leaf:from_tensor": 120,
          "from_tensor:balance": 35, "from_tensor:first": 35, "from_tensor:last": 35, "nonzero_charge_leaves": 400,
          "complex_leaves": 600, "addn_mixed_sign_or_phase": 18, "matmul_mode_meta": 20, "central:reverse": 4,
-         "central_block_comparisons": 70, "central:add-multiply-rejected": 35,
+         "central_block_comparisons": 70, "central:add-multiply-rejected": 35, "central:norm-with-central-block": 30,
          "addn:permuted-order": 20, "addn:amplitudes-as-tuple": 10, "addn:amplitudes-as-list": 12, "addn:zero-amplitude": 3,
          "addself:+": 15, "addself:add3": 6, "addself:add-amps": 5, "addself:sub": 3, "leaf:identity": 30, "twin_checks": 60,
          "measure:mpo-sum:ops-as-tuple": 15, "measure:mpo-sum:ops-as-list": 15, "defaults:zipper": 7, "defaults:compression_": 2,
@@ -1233,6 +1233,12 @@ def fam_central(E, idx):
     E.sigparts.append({"central": {"site": n, "to": to}})
     look(f"orthogonalize_site_({n}, {to}, normalize=False)", "orthogonalize_site_", y, d)
     cs0 = cscale
+    # norm() while the central block is present (the other sites are in general not canonical)
+    nrm_y = y.norm()
+    ctx.count("central:norm-with-central-block")
+    if not ctx.margin("number:central-norm", abs(nrm_y - R.nrm(d)), 10 * CT * R.EPS * cscale):
+        ctx.violation("value:central-block:norm", f"norm() = {nrm_y!r} with a central block at {y.pC}, dense norm {R.nrm(d)!r}", E.witness())
+        raise Stop
     op = rng.choice(("reverse", "reverse", "conj", "T", "H", "copy", "clone", "shallow_copy", "mul", "neg", "div"))
     c = rng.choice(SCALARS)
     E.sigparts.append({"op-with-central-block": op})
